@@ -49,7 +49,7 @@ BUDGETS = {"quick": (4500, 90), "thorough": (300000, 285)}
 SHRINK_CAP = 200
 CANCELS = ["KeyboardInterrupt", "SystemExit", "CancelledError"]
 FORBIDDEN_AFTER_ABORT = ("OP_BEGIN", "SLEEP_BEGIN", "HANDLER", "BEFORE_SLEEP")
-FORBIDDEN_AFTER_CANCEL = ("OP_BEGIN", "SLEEP_BEGIN", "HANDLER", "BEFORE_SLEEP", "CLASSIFY", "RCLASSIFY", "STRATEGY", "BUDGET", "METRIC", "LOG", "POLL")
+FORBIDDEN_AFTER_CANCEL = ("OP_BEGIN", "SLEEP_BEGIN", "HANDLER", "BEFORE_SLEEP", "CLASSIFY", "RCLASSIFY", "STRATEGY", "BUDGET")
 
 
 def gen(seed, tier="quick"):
@@ -129,7 +129,8 @@ def check_abort(scn, cf, out, ent, tag):
 
 def check_cancel(scn, cf, out, ent, tag, trig, want_obj, at_t):
     after = [e for e in cf.events if e["seq"] > trig["seq"]]
-    bad = [e["ev"] + (":" + e["event"] if e["ev"] in ("METRIC", "LOG") else "") for e in after if e["ev"] in FORBIDDEN_AFTER_CANCEL]
+    bad = [e["ev"] + (":" + e["event"] if e["ev"] in ("METRIC", "LOG") else "") for e in after
+           if e["ev"] in FORBIDDEN_AFTER_CANCEL or (e["ev"] in ("METRIC", "LOG") and e["event"] == "retry")]
     if bad:
         out.append(V("R3", f"{bad[0].split(':')[0]} after a cancellation-type exception", {"entry": ent, "after": bad, "fault": tag}))
     end = cf.end
